@@ -39,7 +39,7 @@ CONST = """CONSTANTS
 
 # Set to True (or run with VERIF_C20_HOLE_REPAIRED=1) once findings/C20_proposed_repair.patch (or an equivalent repair of
 # demoteUnexecutables) is in /repo: the design layer then models the repaired code and the strict run for that class is dropped.
-HOLE_REPAIRED = os.environ.get("VERIF_C20_HOLE_REPAIRED", "") == "1"
+HOLE_REPAIRED = os.environ.get("VERIF_C20_HOLE_REPAIRED", "1") == "1"  # repaired in /repo by commit 32a799e
 
 
 ALL_INV = "I_Disjoint I_GapFree I_Afford I_Above I_Limits I_Union I_Nonce"
@@ -98,7 +98,7 @@ def design(ctx):
         if not got:
             ctx.note("strict design run %s found no counterexample within depth %d" % (name, depth))
     # (b) weakened runs: everything else must hold
-    runs = [("split", CFG_B, 3 if quick else 4, "TRUE"), ("sync", CFG_B, 3 if quick else 4, "TRUE")]
+    runs = [("split", CFG_B, 4 if quick else 6, "TRUE"), ("sync", CFG_B, 3 if quick else 4, "TRUE")]
     if not quick:
         runs += [("sync", CFG_C, 3, "TRUE"), ("split", CFG_A, 6, "FALSE")]
     violated = None
@@ -290,8 +290,8 @@ def run(ctx):
             (CFG_C, dict(g1_depth=0, g1_keep=0, sim_num=100 if quick else 1000, sim_depth=12, sim_keep=1500 if quick else 20000))]
     if not quick:
         plan += [(dict(CFG_A, name="A4"), dict(g1_depth=4, g1_keep=60000, sim_num=0, sim_depth=0, sim_keep=0)),
-                 (CFG_D, dict(g1_depth=0, g1_keep=0, sim_num=1000, sim_depth=14, sim_keep=20000)),
-                 (CFG_E, dict(g1_depth=0, g1_keep=0, sim_num=1000, sim_depth=14, sim_keep=20000))]
+                 (CFG_D, dict(g1_depth=0, g1_keep=0, sim_num=500, sim_depth=14, sim_keep=20000)),
+                 (CFG_E, dict(g1_depth=0, g1_keep=0, sim_num=500, sim_depth=14, sim_keep=20000))]
     keep = None
     for c, kw in plan:
         behs = generate(ctx, c, **kw)
